@@ -3,7 +3,7 @@ vocabulary (rig/routing_table/utils.py::intersect), the meta-lemmas that turn th
 local checks into first-match preservation, and the try-each-method front end.  The minimisers'
 loops over tables of entry objects are decided by the bounded layer (bounded/c04_tables.py)."""
 from pyvc.spec import contract, lemma
-from pyvc.values import TInt, TBool, TBV, TOpt, TSeq
+from pyvc.values import TInt, TBool, TBV, TOpt, TSeq, TTuple
 from pyvc.speclib import implies, iff, forall_keys, exists_keys
 
 KEY = TBV(40, 0, 0xffffffff)      # 32-bit keys/masks as signed 40-bit vectors (no overflow possible)
@@ -75,11 +75,17 @@ class MergeCovers:
 
 # ---- default-route removal: the per-entry decision ------------------------------------------------
 from pyvc.values import TSmallSet, TRec, TSeq   # noqa: E402
-from pyvc.speclib import forall_range, select, seq_len   # noqa: E402
+from pyvc.speclib import forall_range, select, seq_len, opaque   # noqa: E402
 
 ROUTES = list(range(24))
 ENTRY = TRec("RoutingTableEntry", route=TSmallSet(ROUTES), key=KEY, mask=KEY, sources=TSmallSet([None] + ROUTES))
 TABLE = TSeq(ENTRY)
+
+
+@opaque
+def no_later_alias(table, i, key, mask):
+    """no entry below position i can match a key that (key, mask) matches"""
+    return forall_range(i + 1, seq_len(table), lambda j: (key & select(table, j).mask) != (select(table, j).key & mask))
 
 
 def straight_through(entry):
@@ -97,6 +103,7 @@ def _mk_entry(e):
 class IsDefaultable:
     properties = ("C04",)
     params = dict(i=TInt(0, None), entry=ENTRY, table=TABLE, check_for_aliases=TBool())
+    result = TBool()
     options = {"int_class": "rig/routing_table/entries.py::Routes", "no_merge": True}
 
     def native(i, entry, table, check_for_aliases):
@@ -108,5 +115,188 @@ class IsDefaultable:
 
     def ensures_removable_iff_hardware_default_routing_does_the_same(i, entry, table, check_for_aliases, result):
         # ... and (when asked to check) no LATER entry can match a key this entry matches
-        return iff(result, straight_through(entry) and (not check_for_aliases or forall_range(
-            i + 1, seq_len(table), lambda j: (entry.key & select(table, j).mask) != (select(table, j).key & entry.mask))))
+        return iff(result, straight_through(entry) and (not check_for_aliases or no_later_alias(table, i, entry.key, entry.mask)))
+
+
+# ---- default-route removal: the table loop -----------------------------------------------------------
+from pyvc.values import TOpt   # noqa: E402
+from pyvc.speclib import exists_range, unopt, opaque   # noqa: E402
+
+
+
+@opaque
+def removable(table, i, check):
+    """entry i may be left to hardware default routing (the contract of _is_defaultable).  Opaque
+    inside the quantified invariants; its definition is used at the one index handled per iteration."""
+    e = select(table, i)
+    return straight_through(e) and (not check or no_later_alias(table, i, e.key, e.mask))
+
+
+@contract("rig/routing_table/remove_default_routes.py::minimise")
+class RemoveDefaultRoutes:
+    """The result is the order-preserving sub-table of exactly the entries that may NOT be left to
+    default routing (ghost g_idx = indices kept).  With lemma intersect_iff_a_common_key_exists this
+    gives C04 for default-route removal on any ordered table: a key whose first match i is kept is
+    still first-matched by the image of i (everything above it in the result was above it before and
+    did not match); if i was removed, no later entry matches the key (it would intersect i) and no
+    earlier one does, so hardware default routing takes over, which is what entry i did."""
+    properties = ("C04",)
+    params = dict(table=TABLE, target_length=TOpt(TInt(0, None)), check_for_aliases=TBool())
+    modular = ("rig/routing_table/remove_default_routes.py::_is_defaultable",)
+    options = {"var_shapes": {"new_table": TABLE}, "int_class": "rig/routing_table/entries.py::Routes"}
+    ghost_vars = {"g_idx": TSeq(TInt())}
+    ghost_updates = {"new_table.append(entry)": ["gupd_remember_the_index_kept"]}
+    raises = {"MinimisationFailedError": None}
+    loop_headers = {0: "for i, entry in enumerate(table):"}
+
+    def native(table, target_length, check_for_aliases):
+        from rig.routing_table.remove_default_routes import minimise
+        from pyvc.replay import OutsideHarness
+        raise OutsideHarness()        # the ghost index map has no native counterpart; see bounded/c04_tables.py
+
+    def gupd_remember_the_index_kept(g_idx, i):
+        return {"g_idx": g_idx + [i]}
+
+    def requires(table, target_length, check_for_aliases):
+        return forall_range(0, seq_len(table), lambda j: well_formed(select(table, j).key, select(table, j).mask))
+
+    def inv_0_one_index_per_kept_entry(new_table, g_idx, _k0):
+        return seq_len(new_table) == seq_len(g_idx) and seq_len(g_idx) <= _k0
+
+    def inv_0_kept_entries_are_the_indexed_ones(new_table, g_idx, table, _k0):
+        return forall_range(0, seq_len(g_idx), lambda a: 0 <= select(g_idx, a) < _k0
+                            and select(new_table, a) == select(table, select(g_idx, a)))
+
+    def inv_0_order_preserved(g_idx):
+        return forall_range(0, seq_len(g_idx) - 1, lambda a: select(g_idx, a) < select(g_idx, a + 1))
+
+    def inv_0_last_index_below_k(g_idx, _k0):
+        return seq_len(g_idx) == 0 or select(g_idx, seq_len(g_idx) - 1) < _k0
+
+    def inv_0_nothing_removable_is_kept(g_idx, table, old_check_for_aliases):
+        return forall_range(0, seq_len(g_idx), lambda a: not removable(table, select(g_idx, a), old_check_for_aliases))
+
+    def inv_0_everything_else_is_kept(g_idx, table, old_check_for_aliases, _k0):
+        return forall_range(0, _k0, lambda i: removable(table, i, old_check_for_aliases)
+                            or exists_range(0, seq_len(g_idx), lambda a: select(g_idx, a) == i))
+
+    # the decision taken for entry i in this iteration is the right one -- also when the
+    # same-mask/distinct-keys shortcut has switched the alias check off (no two entries of such a
+    # table intersect).  This is where the definition of `removable` is used.
+    ghost_asserts = {"""if not _is_defaultable(i, entry, table, check_for_aliases):
+            new_table.append(entry)""": ["ghost_entry_kept_iff_not_removable"]}
+
+    def ghost_entry_kept_iff_not_removable(table, i, old_check_for_aliases, g_idx):
+        kept = seq_len(g_idx) > 0 and select(g_idx, seq_len(g_idx) - 1) == i
+        return kept == (not removable(table, i, old_check_for_aliases))
+
+    def raises_MinimisationFailedError(target_length, local_new_table, exc_args):
+        return (target_length is not None and unopt(target_length) < seq_len(local_new_table)
+                and exc_args[0] == unopt(target_length) and exc_args[1] == seq_len(local_new_table))
+
+    def ensures_never_longer_and_meets_the_target(table, target_length, result):
+        return seq_len(result) <= seq_len(table) and (target_length is None or seq_len(result) <= unopt(target_length))
+
+    def ensures_order_preserving_subtable(table, result, g_idx):
+        return (seq_len(result) == seq_len(g_idx)
+                and forall_range(0, seq_len(g_idx), lambda a: 0 <= select(g_idx, a) < seq_len(table)
+                                 and select(result, a) == select(table, select(g_idx, a)))
+                and forall_range(0, seq_len(g_idx) - 1, lambda a: select(g_idx, a) < select(g_idx, a + 1)))
+
+    def ensures_keeps_exactly_the_entries_default_routing_cannot_replace(table, old_check_for_aliases, g_idx):
+        # (removable(...) is the predicate of _is_defaultable's contract, with the CALLER's flag)
+        # stated with the caller's check_for_aliases (the same-mask/distinct-keys shortcut must not matter)
+        return (forall_range(0, seq_len(g_idx), lambda a: not removable(table, select(g_idx, a), old_check_for_aliases))
+                and forall_range(0, seq_len(table), lambda i: removable(table, i, old_check_for_aliases)
+                                 or exists_range(0, seq_len(g_idx), lambda a: select(g_idx, a) == i)))
+
+
+# ---- the try-each-method front end ---------------------------------------------------------------------
+from pyvc.values import TList, TRec as _TRec, ListV as _ListV, ExcV as _ExcV, NONE as _NONE   # noqa: E402
+from rig.routing_table import MinimisationFailedError   # noqa: E402,F401  (class resolution for the engine)
+
+ANYTABLE = TSeq(TInt())           # the front end only looks at lengths and hands tables through
+
+
+@contract("rig/routing_table/minimise.py::_identity")
+class Identity:
+    properties = ("C04",)
+    params = dict(table=ANYTABLE, target_length=TOpt(TInt(0, None)))
+    raises = {"MinimisationFailedError": None}
+
+    def raises_MinimisationFailedError(table, target_length, exc_args):
+        # NB: a table of exactly the target length is refused here (and then accepted from the next
+        # method, which returns it unchanged or smaller)
+        return target_length is not None and seq_len(table) >= unopt(target_length) and exc_args == (unopt(target_length), seq_len(table))
+
+    def ensures_returns_the_table_itself(table, target_length, result):
+        return result == table and (target_length is None or seq_len(table) < unopt(target_length))
+
+
+def _method_call(E, obj, args, kwargs, st, node):
+    """Assumed contract of a minimisation method f(table, target): it returns its result table
+    (ghost input g_r<n>: no longer than the input, within the target if one is given) or raises
+    MinimisationFailedError(target, final_length = ghost g_f<n>)."""
+    from pyvc.engine import Raised
+    n = obj.fields["n"]
+    r = st.env["g_r%d" % n]
+    fl = st.env["g_f%d" % n]
+    fails = st.env["g_fail%d" % n]
+    ok = st.assume(z3.Not(fails))
+    bad = st.assume(fails)
+    return [(ok, r, None), (bad, Raised(_ExcV("MinimisationFailedError", (args[1], fl))), None)]
+
+
+import z3   # noqa: E402
+METHOD = lambda n: _TRec("Method", n=TConst(n))    # noqa: E731
+from pyvc.values import TConst   # noqa: E402
+
+
+@contract("rig/routing_table/minimise.py::minimise_table")
+class MinimiseTable:
+    """two methods after the built-in identity (the default is default-route removal, then ordered
+    covering); each method is an opaque callable with the assumed contract of _method_call"""
+    properties = ("C04",)
+    params = dict(table=ANYTABLE, target_length=TOpt(TInt(0, None)), methods=TTuple(METHOD(0), METHOD(1)),
+                  g_r0=ANYTABLE, g_r1=ANYTABLE, g_f0=TInt(0, None), g_f1=TInt(0, None), g_fail0=TBool(), g_fail1=TBool())
+    externals = {"Method.__call__": _method_call}
+    raises = {"MinimisationFailedError": None}
+    options = {"no_merge": True}
+    assumptions = ["each minimisation method either returns a table no longer than its input that meets the target (if given) and routes every key as the input does, or raises MinimisationFailedError(final_length) - discharged separately for default-route removal, bounded for ordered covering"]
+
+    def native(table, target_length, methods, g_r0, g_r1, g_f0, g_f1, g_fail0, g_fail1):
+        raise __import__("pyvc.replay", fromlist=["OutsideHarness"]).OutsideHarness()
+
+    def requires(table, target_length, g_r0, g_r1, g_f0, g_f1, g_fail0, g_fail1):
+        return (seq_len(g_r0) <= seq_len(table) and seq_len(g_r1) <= seq_len(table)
+                and (target_length is None or (seq_len(g_r0) <= unopt(target_length) and seq_len(g_r1) <= unopt(target_length)))
+                and (target_length is None or (g_f0 > unopt(target_length) and g_f1 > unopt(target_length)))
+                and implies(target_length is None, not g_fail0 and not g_fail1))
+
+    def raises_MinimisationFailedError(table, target_length, g_f0, g_f1, g_fail0, g_fail1, exc_args):
+        # only if the table itself is too long AND every method failed; reports the best size reached
+        return (target_length is not None and seq_len(table) >= unopt(target_length) and g_fail0 and g_fail1
+                and exc_args[0] == unopt(target_length) and exc_args[1] == min(seq_len(table), g_f0, g_f1))
+
+    def ensures_returns_a_table_one_of_the_methods_produced(table, g_r0, g_r1, g_fail0, g_fail1, result):
+        return result == table or (not g_fail0 and result == g_r0) or (not g_fail1 and result == g_r1)
+
+    def ensures_meets_the_target_or_is_a_shortest(table, target_length, g_r0, g_r1, result):
+        return ((target_length is not None and seq_len(result) <= unopt(target_length))
+                or (target_length is None and seq_len(result) <= seq_len(table)
+                    and seq_len(result) <= seq_len(g_r0) and seq_len(result) <= seq_len(g_r1)))
+
+
+# ---- ordered covering: generality ------------------------------------------------------------------------
+@contract("rig/routing_table/ordered_covering.py::_get_generality")
+class GetGenerality:
+    properties = ("C04",)
+    bv = 40
+    params = dict(key=KEY, mask=KEY)
+
+    def ensures_counts_the_x_bits(key, mask, result):
+        # an X is a bit that is 0 in both key and mask (the table must be listed by this number)
+        return result == sum((1 if ((~key & ~mask) & (1 << i)) != 0 else 0) for i in range(32))
+
+    def ensures_in_range(key, mask, result):
+        return 0 <= result <= 32
